@@ -203,6 +203,20 @@ def run(ctx):
         ctx.violation('concurrent history not linearizable w.r.t. Ports P-spec (event %d of history)' % ln,
                       dict(kind='race', events=segs[si]))
 
+    # ... and bursts: one operation per goroutine, all released together by a spin barrier (the check-then-act window of a
+    # reservation is hit by construction; mostly conflicting reservations of one port, sometimes a release or a query among them)
+    nb = ctx.pick(1600, 12000)
+    bp = os.path.join(ctx.work, 'burst.ndjson')
+    ctx.run([drv, 'burst', bp, str(ctx.seed), str(nb), '5'])
+    bsegs = vlib.split_segments(vlib.read_ndjson(bp))
+    acc, rej = vlib.validate_segments(ctx, 'TracePorts', tc, SPEC, bsegs, name='burst', max_reruns=4)
+    ctx.traces += acc
+    ctx.extra['burst_histories'] = len(bsegs)
+    ctx.extra['burst_histories_with_more_than_one_grant'] = sum(1 for sg in bsegs if sum(1 for e in sg if e.get('ev') == 'ret' and e.get('ok')) > 1)
+    for si, ln in rej:
+        ctx.violation('burst of concurrent operations not linearizable w.r.t. Ports P-spec (event %d of history): e.g. two conflicting reservations both granted' % ln,
+                      dict(kind='race', events=bsegs[si]))
+
     # ---- socket level: reservations made at bind/auto-bind, released by Close (every SockPorts graph transition on a real stack)
     socket_sweep(ctx)
 
